@@ -2273,7 +2273,7 @@ def make_cases(ctx):
         yield x
     for cfg in cache_configs(ctx) + rsa_configs(ctx) + db_configs(ctx):
         yield cfg["name"], ("sched", cfg)
-    Lq = ctx.pick(6, 8)
+    Lq = ctx.pick(6, 7)
     parts = ctx.pick(8, 32)
     for part in range(parts):
         for M in (2, 3):
